@@ -464,6 +464,8 @@ class Interp:
             return True
         if isinstance(v, (FuncVal, BoundMethod, ClassVal, Builtin, SliceVal)):
             return True
+        if isinstance(v, IterSpec) and v.term is not None:
+            return S.truthy(v.term)
         raise Unsupported(f"truth({type(v).__name__})")
 
     # ---- snapshots for sub-exploration
